@@ -6,11 +6,17 @@ import OciModel.Driver.Mem
 import OciModel.Driver.Req
 import OciModel.Driver.Upload
 import OciModel.Driver.Pager
+import OciModel.Driver.Listing
+import OciModel.Driver.Select
+import OciModel.Driver.Sub
+import OciModel.Driver.WrapRO
 
 structure DState where
   scopes : OciModel.Driver.Scope.Regs := []
   mem : OciModel.Mem.State := OciModel.Mem.init false
   up : OciModel.Driver.Upload.UState := {}
+  sub : OciModel.Driver.Sub.SubState := {}
+  wrap : OciModel.Driver.WrapRO.WrapState := {}
 
 /-- One line in, one line out. The first token names the engine. -/
 def step (st : DState) (line : String) : DState × String :=
@@ -22,7 +28,16 @@ def step (st : DState) (line : String) : DState × String :=
     let (m, out) := OciModel.Driver.Mem.drive st.mem rest
     ({ st with mem := m }, out)
   | "srv" :: _ => (st, "skip")
+  | "ac" :: rest => (st, OciModel.Driver.Select.drive "ac" rest)
+  | "sel" :: rest => (st, OciModel.Driver.Select.drive "sel" rest)
+  | "sub" :: rest =>
+    let (s, out) := OciModel.Driver.Sub.drive st.sub rest
+    ({ st with sub := s }, out)
+  | "wrap" :: rest =>
+    let (s, out) := OciModel.Driver.WrapRO.drive st.wrap rest
+    ({ st with wrap := s }, out)
   | "cl" :: _ => (st, "skip")
+  | "ls" :: rest => (st, OciModel.Driver.Listing.drive rest)
   | "pg" :: rest => (st, OciModel.Driver.Pager.drive rest)
   | "up" :: rest =>
     let (u, out) := OciModel.Driver.Upload.drive st.up rest
